@@ -1251,24 +1251,25 @@ Fixpoint increasing (t0 : Z) (h : list (Z * list sop)) : Prop :=
   | (t, _) :: r => t0 < t /\ increasing t r
   end.
 
-Fixpoint tss_trace (s : tss) (h : list (Z * list sop)) : list (tss * Z * tss) :=
+(* the cycles of a history: (state before, time, mutations, state after) *)
+Fixpoint tss_trace (s : tss) (h : list (Z * list sop)) : list (tss * Z * list sop * tss) :=
   match h with
   | [] => []
-  | (t, ops) :: r => let s' := tss_cycle t ops s in (s, t, s') :: tss_trace s' r
+  | (t, ops) :: r => let s' := tss_cycle t ops s in (s, t, ops, s') :: tss_trace s' r
   end.
 
 Lemma trace_inv h : forall s t0 V0,
   CInv V0 t0 s -> MIN_DT <= t0 -> increasing t0 h ->
-  forall a t b, In (a, t, b) (tss_trace s h) -> MIN_DT < t /\ CInv (inV a) t b /\
-    exists ops, b = tss_cycle t ops a /\ Fresh (inV a) t a.
+  forall a t ops b, In (a, t, ops, b) (tss_trace s h) ->
+    MIN_DT < t /\ b = tss_cycle t ops a /\ Fresh (inV a) t a /\ CInv (inV a) t b.
 Proof.
-  induction h as [|[t1 ops] r IH]; intros s t0 V0 C P I a t b H; simpl in H; [contradiction|].
+  induction h as [|[t1 ops1] r IH]; intros s t0 V0 C P I a t ops b H; simpl in H; [contradiction|].
   destruct I as [I1 I2].
   pose proof (cinv_next V0 t0 s t1 C I1) as F.
-  destruct (cycle_step (inV s) t1 ops s (or_introl F)) as [C1 _].
+  destruct (cycle_step (inV s) t1 ops1 s (or_introl F)) as [C1 _].
   destruct H as [H|H].
-  - inversion H; subst a t b. split; [lia|]. split; [exact C1|]. exists ops. auto.
-  - apply (IH (tss_cycle t1 ops s) t1 (inV s) C1 ltac:(lia) I2 a t b H).
+  - inversion H; subst a t ops b. split; [lia|]. auto.
+  - apply (IH (tss_cycle t1 ops1 s) t1 (inV s) C1 ltac:(lia) I2 a t ops b H).
 Qed.
 
 Lemma cinv_empty : CInv (fun _ => False) MIN_DT tss_empty.
@@ -1279,3 +1280,45 @@ Qed.
 
 Lemma tss_value_empty : tss_value tss_empty = [].
 Proof. reflexivity. Qed.
+
+(* ------------------------------------------------------------------ TSS: the statements of C05 *)
+Section TssTheorems.
+  Variable h : list (Z * list sop).
+  Hypothesis Hinc : increasing MIN_DT h.
+  Variables (a : tss) (t : Z) (ops : list sop) (b : tss).
+  Hypothesis Hin : In (a, t, ops, b) (tss_trace tss_empty h).
+
+  Let V k := In k (tss_value a).
+  Let V' k := In k (tss_value b).
+
+  Lemma tss_facts :
+    (forall k, In k (tss_added t b) <-> V' k /\ ~ V k) /\
+    (forall k, In k (tss_removed t b) <-> V k /\ ~ V' k) /\
+    (forall k, V' k <-> spec_cycle ops V k) /\
+    (tss_modified t b = false -> forall k, V' k <-> V k).
+  Proof.
+    destruct (trace_inv h tss_empty MIN_DT _ cinv_empty ltac:(lia) Hinc a t ops b Hin) as [P [E [F C]]].
+    destruct (cinv_char (inV a) t b ltac:(unfold MIN_DT in *; lia) C) as [A [R U]].
+    unfold V, V'. split; [|split; [|split]].
+    - intros k. rewrite A, !tss_value_in. reflexivity.
+    - intros k. rewrite R, !tss_value_in. reflexivity.
+    - intros k. subst b. destruct (cycle_step (inV a) t ops a (or_introl F)) as [_ S].
+      rewrite tss_value_in, S. apply spec_cycle_ext. intros x. rewrite tss_value_in. reflexivity.
+    - intros M k. rewrite !tss_value_in. apply U. exact M.
+  Qed.
+
+  Lemma tss_step_l : forall k, V' k <-> (V k /\ ~ In k (tss_removed t b)) \/ In k (tss_added t b).
+  Proof.
+    destruct tss_facts as [A [R _]]. intros k. rewrite A, R. unfold V, V'.
+    destruct (in_dec Z.eq_dec k (tss_value a)) as [Y|N]; destruct (in_dec Z.eq_dec k (tss_value b)) as [Y'|N']; tauto.
+  Qed.
+
+  Lemma tss_disjoint_l : forall k, In k (tss_added t b) -> In k (tss_removed t b) -> False.
+  Proof. destruct tss_facts as [A [R _]]. intros k HA HR. apply A in HA. apply R in HR. tauto. Qed.
+
+  Lemma tss_added_present_l : forall k, In k (tss_added t b) -> V' k /\ ~ V k.
+  Proof. destruct tss_facts as [A _]. intros k. apply A. Qed.
+
+  Lemma tss_removed_l : forall k, In k (tss_removed t b) -> ~ V' k /\ V k.
+  Proof. destruct tss_facts as [_ [R _]]. intros k HR. apply R in HR. tauto. Qed.
+End TssTheorems.
